@@ -11,6 +11,9 @@
 //! header: `loops <kind> <hosts> <cores> <max> <body> <fold> <cond> <init> <delay> <maxInner>`
 //!   kind  ∈ replay | iterate | nested (a replay inside a replay) | nestri (an iterate inside a replay)
 //!         | nestir (a replay inside an iterate)
+//!         | nestrx / nestrm (iterate inside a replay; the outer body returns the inner ITEMS stream /
+//!           the inner state element merged with the inner items stream)
+//!         | nestix / nestim (the same inside an outer iterate)
 //!   body  ∈ map | shmap | mapsh | filt | group | kf2 (shuffle, map, group_by+fold, map)
 //!         | join (replay only: split + self-join on x mod 4)   (single loops)
 //!         ∈ n0 | n1 | n2 | n3                              (nested: no shuffle | inner | outer | both)
@@ -380,10 +383,27 @@ macro_rules! nested_job {
     }};
 }
 
+/// what the outer body does with the two streams of an inner `iterate` (`$tag`: the outer-round tag of
+/// the state element): F = the final inner state only (items go to a sink), X = the ITEMS stream is the
+/// outer body's result (state goes to a sink), M = the state element merged with the items stream
+macro_rules! inner_out {
+    (F, $ist:expr, $items:expr, $tag:expr) => {{
+        $items.for_each(|_e: E| ());
+        $ist.map(move |f: i64| ($tag, 0i64, f.rem_euclid(M)))
+    }};
+    (X, $ist:expr, $items:expr, $tag:expr) => {{
+        $ist.for_each(|_f: i64| ());
+        $items
+    }};
+    (M, $ist:expr, $items:expr, $tag:expr) => {{
+        $ist.map(move |f: i64| ($tag, 0i64, f.rem_euclid(M))).merge($items)
+    }};
+}
+
 /// an ITERATE inside a replay: the inner loop feeds its output back (`ki` is carried by the data); its
 /// last round's items go to a sink, its final state (one element, mod 1000) is the outer body's output
 macro_rules! nestri_job {
-    ($env:expr, $cfg:expr, $osh:tt, $ish:tt) => {{
+    ($env:expr, $cfg:expr, $osh:tt, $ish:tt, $out:tt) => {{
         let cfg: Cfg = $cfg.clone();
         let run = cfg.run;
         let max_inner = cfg.max_inner;
@@ -415,8 +435,7 @@ macro_rules! nestri_job {
                     |s: &mut i64, d: i64| *s += d,
                     |_s: &mut i64| true,
                 );
-                items.for_each(|_e: E| ());
-                ist.map(|f: i64| (0i64, 0i64, f.rem_euclid(M)))
+                inner_out!($out, ist, items, 0i64)
             },
             move |d: &mut i64, e: E| local_fold(&f1, d, e),
             move |s: &mut i64, d: i64| global_fold(&f2, s, d),
@@ -474,6 +493,50 @@ macro_rules! nestir_job {
     }};
 }
 
+/// an ITERATE inside an iterate. The items of the inner loop keep the outer-round tag of the data; the
+/// state element is tagged with the number of inner results so far; the outer body's last map moves
+/// everything to the next outer round.
+macro_rules! nestii_job {
+    ($env:expr, $cfg:expr, $osh:tt, $ish:tt, $out:tt) => {{
+        let cfg: Cfg = $cfg.clone();
+        let run = cfg.run;
+        let max_inner = cfg.max_inner;
+        let (f1, f2, c1) = (cfg.fold.clone(), cfg.fold.clone(), cfg.cond.clone());
+        let src = $env
+            .stream(IteratorSource::new(cfg.input.clone().into_iter()))
+            .batch_mode(batch_mode(&cfg))
+            .shuffle()
+            .map(move |x: i64| (0i64, 0i64, x));
+        let (st, items) = src.iterate(
+            cfg.max,
+            cfg.init,
+            move |s, so: IterationStateHandle<i64>| {
+                let s = maybe_shuffle!($osh, s);
+                let (ist, items) = s.iterate(
+                    max_inner,
+                    1i64,
+                    move |s2, si: IterationStateHandle<i64>| {
+                        maybe_shuffle!($ish, s2).map(move |e: E| {
+                            let (vo, vi) = rd2(run, &so, &si, &e);
+                            (e.0, e.1 + 1, (e.2 + vo + vi).rem_euclid(M))
+                        })
+                    },
+                    |d: &mut i64, e: E| *d += e.2,
+                    |s: &mut i64, d: i64| *s += d,
+                    |_s: &mut i64| true,
+                );
+                // the state element of outer round k is tagged k (next_result counts from 1)
+                inner_out!($out, ist, items, next_result(run) - 1).map(|e: E| (e.0 + 1, 0i64, e.2))
+            },
+            move |d: &mut i64, e: E| local_fold(&f1, d, e),
+            move |s: &mut i64, d: i64| global_fold(&f2, s, d),
+            move |s: &mut i64| loop_cond(&c1, s),
+        );
+        let r: Outputs = (st.collect_vec(), Some(items.collect_vec()));
+        r
+    }};
+}
+
 fn build(env: &StreamContext, cfg: &Cfg) -> Outputs {
     match (cfg.kind.as_str(), cfg.body.as_str()) {
         ("replay", "map") => replay_job!(env, cfg, body_map),
@@ -489,10 +552,26 @@ fn build(env: &StreamContext, cfg: &Cfg) -> Outputs {
         ("replay", "kf2") => replay_job!(env, cfg, body_kf2),
         ("replay", "join") => replay_job!(env, cfg, body_join),
         ("iterate", "kf2") => iterate_job!(env, cfg, body_kf2),
-        ("nestri", "n0") => nestri_job!(env, cfg, false, false),
-        ("nestri", "n1") => nestri_job!(env, cfg, false, true),
-        ("nestri", "n2") => nestri_job!(env, cfg, true, false),
-        ("nestri", "n3") => nestri_job!(env, cfg, true, true),
+        ("nestri", "n0") => nestri_job!(env, cfg, false, false, F),
+        ("nestri", "n1") => nestri_job!(env, cfg, false, true, F),
+        ("nestri", "n2") => nestri_job!(env, cfg, true, false, F),
+        ("nestri", "n3") => nestri_job!(env, cfg, true, true, F),
+        ("nestrx", "n0") => nestri_job!(env, cfg, false, false, X),
+        ("nestrx", "n1") => nestri_job!(env, cfg, false, true, X),
+        ("nestrx", "n2") => nestri_job!(env, cfg, true, false, X),
+        ("nestrx", "n3") => nestri_job!(env, cfg, true, true, X),
+        ("nestrm", "n0") => nestri_job!(env, cfg, false, false, M),
+        ("nestrm", "n1") => nestri_job!(env, cfg, false, true, M),
+        ("nestrm", "n2") => nestri_job!(env, cfg, true, false, M),
+        ("nestrm", "n3") => nestri_job!(env, cfg, true, true, M),
+        ("nestix", "n0") => nestii_job!(env, cfg, false, false, X),
+        ("nestix", "n1") => nestii_job!(env, cfg, false, true, X),
+        ("nestix", "n2") => nestii_job!(env, cfg, true, false, X),
+        ("nestix", "n3") => nestii_job!(env, cfg, true, true, X),
+        ("nestim", "n0") => nestii_job!(env, cfg, false, false, M),
+        ("nestim", "n1") => nestii_job!(env, cfg, false, true, M),
+        ("nestim", "n2") => nestii_job!(env, cfg, true, false, M),
+        ("nestim", "n3") => nestii_job!(env, cfg, true, true, M),
         ("nestir", "n0") => nestir_job!(env, cfg, false, false),
         ("nestir", "n1") => nestir_job!(env, cfg, false, true),
         ("nestir", "n2") => nestir_job!(env, cfg, true, false),
@@ -691,12 +770,16 @@ fn exec(c: &Case) -> Vec<String> {
 }
 
 fn gen(rng: &mut Rng, i: usize) -> Case {
-    let kind = match rng.below(24) {
+    let kind = match rng.below(30) {
         0..=8 => "replay",
         9..=15 => "iterate",
         16..=19 => "nested",
         20..=21 => "nestri",
-        _ => "nestir",
+        22..=23 => "nestir",
+        24..=25 => "nestrx",
+        26..=27 => "nestrm",
+        28 => "nestix",
+        _ => "nestim",
     };
     let nest = kind.starts_with("nest");
     let hosts = match rng.below(if nest { 8 } else { 12 }) {
